@@ -52,6 +52,7 @@ def run(ctx, rep):
     rep.rule("R02.3", "local-attribute closure: slots and own methods of BaseNetref are in LOCAL_ATTRS; class_factory skips exactly those")
     rep.rule("R02.4", "generated methods send CALLATTR with their own name and both operand kinds; method discovery covers metaclass and MRO")
     rep.rule("R02.5", "the StopIteration fast path is paired (= R09.7)")
+    rep.rule("R02.11", "access hooks are the target type's, called with the target: a catch-all __getattr__ of the target is never mistaken for a hook (= R06.4)")
     rep.rule("R02.6", "buffered iteration yields every fetched element in order and stops only on an empty chunk")
     rep.rule("R02.8", "generated proxy classes are reused only for the exact class they were generated for (cache keyed by the "
                       "whole id of a class object, never by name alone)")
@@ -451,3 +452,4 @@ def run(ctx, rep):
     rep.floor("R02.10", "forwarding special methods", n10, 10)
 
     K.share(ctx, rep, "c06", lambda o: o.rule == "R06.3", "R02.9", floor=1)
+    K.share(ctx, rep, "c06", lambda o: o.rule == "R06.4", "R02.11", floor=1)
